@@ -470,6 +470,8 @@ pub mod coverage;
 use crate::coverage::CoverageHistogram;
 
 pub mod skalo;
+#[cfg(feature = "verif-hooks")]
+pub mod verif_trace;
 use crate::io_utils::load_array;
 use crate::skalo::utils::Config;
 
